@@ -56,6 +56,9 @@ def isinf_list(I, arr):
     return _leaf_pred(I, arr, lambda f: f.isinf_e(), np.isinf)
 
 
+ALLOW_INF = [False]  # C02 only: a frame whose deciding component is +-inf is stored as a gap; sizes must still agree
+
+
 def assume_frames(I, n, comps):
     """comps: list of arrays whose first axis is the frame; the first component of the
     first array decides the gap.  Each frame is wholly missing or fully present."""
@@ -69,7 +72,10 @@ def assume_frames(I, n, comps):
                 infs0 = isinf_list(I, row)[0]
         allnan = I.and_(*nans)
         nonan = I.and_(*[I.not_(x) for x in nans])
-        I.assume(I.or_(allnan, I.and_(nonan, I.not_(infs0))))
+        if ALLOW_INF[0]:
+            I.assume(I.or_(allnan, nonan))
+        else:
+            I.assume(I.or_(allnan, I.and_(nonan, I.not_(infs0))))
 
 
 def assume_no_nan(I, arr):
@@ -175,8 +181,9 @@ def build_emg(I, sh, tag="b"):
     for k in range(ns):
         data = I.farray(f"{tag}.s{k}", (n,))
         # 1-component frames: NaN = gap, otherwise finite-or-not is irrelevant except inf
-        for x, y in zip(isnan_list(I, data), isinf_list(I, data)):
-            I.assume(I.or_(x, I.not_(y)))
+        if not ALLOW_INF[0]:
+            for x, y in zip(isnan_list(I, data), isinf_list(I, data)):
+                I.assume(I.or_(x, I.not_(y)))
         d.addSignal(m.EMGTrack(labels[k], data), channel=chans[k])
     return d
 
